@@ -37,6 +37,9 @@ def main(tier):
     states = trans = conf = 0
     per, samples, witnesses = [], [], set()
     complete = True
+    # the cheap enumerations first (a long search must not starve them of time)
+    sweep = pcommon.serial_sweep(run, ('C07.',))
+    sweep.update(direct_differential(run, tier))
     for label, gamma, timeout, ids, alph, maxdepth in plans:
         if run.out_of_time(40):
             run.cap('deadline before ' + label); complete = False
@@ -86,9 +89,6 @@ def main(tier):
         per.append({'search': label, 'states': len(s.states), 'transitions': s.transitions, 'fixpoint': s.complete, 'merged_history_pairs_compared': n})
         if n < 50 and not run.violations and not run.capped:
             raise common.HarnessError('vacuous: only %d merged history pairs were compared' % n)
-    sweep = pcommon.serial_sweep(run, ('C07.',)) if not run.out_of_time(40) else {}
-    if not run.out_of_time(40):
-        sweep.update(direct_differential(run, tier))
     cov = {'states': states, 'transitions': trans, 'traces_validated_against_impl': conf, 'samples': samples, 'exhaustive': complete,
            'searches': per, 'witnesses': sorted(witnesses), 'merged_history_pairs_compared': merge_pairs, **sweep,
            'explanation': 'differential oracle with no hand-written expectation: the solo automaton of each client is recorded from the implementation, then every step of the '
